@@ -457,11 +457,13 @@ fn state_case(rng: &mut Rng, rep: &mut Report) {
                 (r.map_err(|e| e.to_string()), g.map(|(x, ex)| (x - base + base, ex)).map(|t| { expect_total = base + val; t }))
             }
             Feat::Energy(fu, _) => {
-                // energy units have no physical oracle: use the same unit for exactness
-                let cu = *fu;
+                // energy units have no physical oracle (fuel equivalences are conventions): the caller's unit is drawn at
+                // random and the repo's own conversion table gives the previous value in it; what is written in a unit
+                // has to be read back in that unit (the table's there-and-back error is 0.023 % at most)
+                let cu = rng.below(3);
                 let r = if add { sm.add_energy(&mut state, &name, &Energy::new(val), &U::ENERGY_UNITS[cu]) } else { sm.set_energy(&mut state, &name, &Energy::new(val), &U::ENERGY_UNITS[cu]) };
-                let g = sm.get_energy(&state, &name, &U::ENERGY_UNITS[cu]).ok().map(|d| (d.as_f64(), true));
-                let base = if add { before[p].0 } else { 0.0 };
+                let g = sm.get_energy(&state, &name, &U::ENERGY_UNITS[cu]).ok().map(|d| (d.as_f64(), cu == *fu));
+                let base = if add { routee_compass_core::model::unit::as_f64::AsF64::as_f64(&U::ENERGY_UNITS[*fu].convert(&Energy::new(before[p].0), &U::ENERGY_UNITS[cu])) } else { 0.0 };
                 (r.map_err(|e| e.to_string()), g.map(|(x, ex)| (x - base + base, ex)).map(|t| { expect_total = base + val; t }))
             }
             Feat::CustomF(_) => {
